@@ -36,7 +36,7 @@ func GetTracesQuery(ctx context.Context, idx *SQLIndexQuery, limit int, fromNS i
 		query.AndWhere(sql.Le(sql.NewRawObject("start_time_unix_nano"), sql.NewIntVal(toNS)))
 	}
 	if minDurationNS > 0 {
-		query.AndWhere(sql.Gt(sql.NewRawObject("duration_ms"), sql.NewIntVal(minDurationNS/1e6)))
+		query.AndWhere(sql.Ge(sql.NewRawObject("duration_ms"), sql.NewIntVal(minDurationNS/1e6)))
 	}
 	if maxDurationNS > 0 {
 		query.AndWhere(sql.Le(sql.NewRawObject("duration_ms"), sql.NewIntVal(maxDurationNS/1e6)))
